@@ -156,6 +156,12 @@ class BaseShell(Shell, ABC):
             except (BrokenPipeError, ConnectionResetError) as e:
                 await self.close()
                 raise WorkflowExecutionException(f"Shell pipe broken: {e}") from e
+            except WorkflowExecutionException:
+                # The end marker of this command has not been consumed (timeout,
+                # EOF, or invalid return code): the output stream is out of sync,
+                # and the next command would read the output of this one
+                await self.close()
+                raise
             except asyncio.TimeoutError as e:
                 raise WorkflowExecutionException(
                     f"Command timeout after {timeout}s"
